@@ -180,13 +180,13 @@ def case_wt(rec, c):
 POTS = {'HS': ['HS', {}], 'HCLJ': ['HCLJ', {'epsilon': 0.5}], 'EXP': ['EXP', {'epsilon': 0.6, 'alpha': 0.5}],
         'LJ': ['LJ', {'epsilon': 0.5, 'rcut': 2.5, 'shift': True}], 'WCA': ['WCA', {'epsilon': 1.0}]}
 CLOS = {'PY': ['PY', False], 'HNC': ['HNC', False], 'MSAhc': ['MSA', True]}
-RHOS = [1e-2, 1e-3, 1e-4, 1e-5]
+RHOS = [1e-2, 1e-3, 1e-4, 1e-5, 1e-7]
 
 
 def mayer(pname, cname, kT, r):
     """Exact dilute-limit g and the Mayer-like function f = g - 1 on r (hard-core potentials: core of diameter 1)."""
     u = ref.ref_potential_vec(POTS[pname], r, 1.0) / kT
-    hard = pname in ref.HARD_CORE_POTENTIALS
+    hard = pname in ref.HARD_CORE_POTENTIALS or cname == 'MSAhc'      # a closure with the hard-core flag excludes r <= d whatever the potential
     core_ = ref.in_core(r, 1.0) if hard else np.zeros(r.shape, dtype=bool)
     with np.errstate(all='ignore'):
         if cname == 'MSAhc':
@@ -203,10 +203,11 @@ def b2_exact(pname, cname, kT):
     for a, b in zip(edges[:-1], edges[1:]):
         r = 0.5 * (GLX + 1) * (b - a) + a
         w = 0.5 * GLW * (b - a)
-        if pname in ref.HARD_CORE_POTENTIALS and b <= 1.0:
+        hard = pname in ref.HARD_CORE_POTENTIALS or cname == 'MSAhc'
+        if hard and b <= 1.0:
             f = -np.ones_like(r)
         else:
-            rr = np.maximum(r, 1.0 + 1e-3) if pname in ref.HARD_CORE_POTENTIALS else r
+            rr = np.maximum(r, 1.0 + 1e-3) if hard else r
             g, f, _ = mayer(pname, cname, kT, rr)
         tot += float(np.sum(w * f * r * r))
     return -2 * np.pi * tot
@@ -259,7 +260,7 @@ def case_dilute(rec, c):
         prev = err
         # second virial coefficient
         B2x = b2_exact(pname, cname, kT)
-        jump = abs(float(gx[np.argmax(r > 1 + 1e-6)]) - 0.0) if hard else 0.0
+        jump = abs(float(mayer(pname, cname, kT, np.array([1.0 + 1e-5]))[0][0]) - 0.0) if hard else 0.0      # g(sigma+) - g(sigma-)  (1e-5: outside the 1e-6 contact tolerance)
         cf = 4 * np.pi * float(np.sum(r * np.abs(f)) * dr) + 4 * np.pi * jump
         dk = float(P.sys.domain.dk)
         c4 = (4 * np.pi / 120.0) * float(np.sum(r ** 6 * np.abs(f)) * dr)
@@ -291,11 +292,11 @@ def run(rec, tier, seed):
     cases = [{'kind': 'wt', 'eta': e, 'levels': 6} for e in etas]
     pots = list(POTS)
     clos = ['PY', 'HNC', 'MSAhc']
-    kTs = [0.7, 3.0] if quick else [0.7, 1.0, 1.5, 3.0]
+    kTs = [0.5, 3.0] if quick else [0.5, 0.7, 1.0, 1.5, 3.0]
     drs = [0.1] if quick else [0.1, 0.05, 0.025]
     for p, cl, kT, dr in itertools.product(pots, clos, kTs, drs):
-        if cl == 'MSAhc' and p not in ref.HARD_CORE_POTENTIALS:
-            continue
+        if cl == 'MSAhc' and p == 'LJ':
+            continue            # (MSA with the flag on the soft WCA potential is included: 1 - u/kT goes negative next to the core)
         cases.append({'kind': 'dilute', 'potential': p, 'closure': cl, 'kT': kT, 'dr': dr})
     # the same ladders on lengths that are not powers of two: 7*2^4, prime, 11^2, 2^3*3*5 (r_max = 0.2*base)
     for base in ([112, 103] if quick else [112, 103, 121, 120, 125]):
